@@ -8,7 +8,8 @@ Every method of `Pipeline` takes the lock once; what happens under one lock is o
 * `connect`      — `edges.push((from,to))`;
 * `snapshot`     — clone `nodes` and `edges`;
 * `record_metrics_start/end` — lock, touch only the metrics collector (no effect on the graph);
-* `set_metrics` / `take_metrics` — lock, `metrics = Some(..)` / `metrics.take()` (no effect on the graph).
+* `set_metrics` / `take_metrics` / `get_metrics` — lock, `metrics = Some(..)` / `metrics.take()` / `metrics.clone()`
+  (no effect on the graph).
 
 Builders are SEQUENCES of such steps (the code between two locks touches only thread-local data):
 
@@ -21,6 +22,8 @@ Builders are SEQUENCES of such steps (the code between two locks touches only th
                                                                                   (helpers/joins.rs)
 * `collect_*` → `Runner::run_collect` = `[metrics start; snapshot(+backwalk_linear); ⟨execute outside the lock⟩; metrics end]`
                                                                                   (runner.rs, planner.rs::build_plan)
+  — when the planner fails (`build_plan(..)?`: "missing node") the run returns at once: no execution and NO
+  `record_metrics_end` (never reached from a published handle: `Props/C08.lean: collect_chain_exists`)
 
 **User code.** No builder calls a user function (closure / `CombineFn`): it only stores it in the node it
 inserts. User functions run when a chain is EXECUTED, i.e. inside `run_collect` between its `build_plan` and
@@ -133,6 +136,7 @@ inductive Op (N : Type) where
   | collect (x : Ref)                                -- `collect_seq` / `collect_par`
   | setMetrics                                       -- `Pipeline::set_metrics`
   | takeMetrics                                      -- `Pipeline::take_metrics`
+  | getMetrics                                       -- `Pipeline::get_metrics` (a clone of the collector, if any)
 
 /-- what is used to build a join: the dummy source node and the `CoGroup` node (of join kind `tag`) holding
     both chains -/
@@ -145,17 +149,18 @@ inductive PC (N : Type) where
   | idle                                         -- between operations (next: `begin`)
   | srcIns (n : N)                               -- from_vec: about to `insert_node`
   | drvIns (p cls : Nat) (n : N)                 -- derive: about to `insert_node` (`cls`: class of the result)
-  | drvCon (p m cls : Nat)                       -- derive: about to `connect(p, m)`
+  | drvCon (p m cls : Nat) (n : N)               -- derive: about to `connect(p, m)`; `n` = the payload it inserted under `m`
   | joinSnapL (l r tag : Nat)                    -- join: about to `chain_from(left)`
   | joinSnapR (l r tag : Nat) (lc : List N)      -- join: about to `chain_from(right)`
-  | joinInsD (tag : Nat) (lc rc : List N)        -- join: about to insert the dummy source
-  | joinInsG (d tag : Nat) (lc rc : List N)      -- join: about to insert the CoGroup node
-  | joinCon (d g : Nat)                          -- join: about to `connect(dummy, cogroup)`
+  | joinInsD (l r tag : Nat) (lc rc : List N)    -- join: about to insert the dummy source (`l r`: the operands, kept for the theorems)
+  | joinInsG (l r d tag : Nat) (lc rc : List N)  -- join: about to insert the CoGroup node
+  | joinCon (l r d g tag : Nat) (lc rc : List N) -- join: about to `connect(dummy, cogroup)`
   | colStart (x : Nat)                           -- collect: about to `record_metrics_start`
   | colSnap (x : Nat)                            -- collect: about to `build_plan` (snapshot + back-walk)
-  | colEnd (x : Nat) (ch : Option (List N))      -- collect: executes outside the lock; about to `record_metrics_end`
+  | colEnd (x : Nat) (ch : List N)               -- collect: executes the planned chain outside the lock; about to `record_metrics_end`
   | metSet                                       -- about to `set_metrics`
   | metTake                                      -- about to `take_metrics`
+  | metGet                                       -- about to `get_metrics`
 
 inductive Outcome (N : Type) where
   | built (id : Nat)
@@ -164,6 +169,7 @@ inductive Outcome (N : Type) where
   | panicked                                     -- `chain_from(..).expect(..)` failed
   | metricsSet                                   -- `set_metrics` returned
   | metricsTaken (had : Bool)                    -- `take_metrics` returned `Some(..)` / `None`
+  | metricsGot (had : Bool)                      -- `get_metrics` returned `Some(..)` / `None`
 
 structure Thread (N : Type) where
   todo : List (Op N)
@@ -241,6 +247,7 @@ def beginOp (c : Cfg N) (th : Thread N) (op : Op N) (rest : List (Op N)) : Threa
     | none => th.finish .skipped
   | .setMetrics => { th with pc := .metSet }
   | .takeMetrics => { th with pc := .metTake }
+  | .getMetrics => { th with pc := .metGet }
 
 /-- one atomic step of thread `th` in configuration `c` (the `threads` field is updated by `step`) -/
 def stepTh (kit : Kit N) (c : Cfg N) (th : Thread N) : Cfg N × Thread N :=
@@ -254,33 +261,39 @@ def stepTh (kit : Kit N) (c : Cfg N) (th : Thread N) : Cfg N × Thread N :=
     (publish { c with g := r.1 } r.2 0, th.finishBuilt r.2)
   | .drvIns p k n =>
     let r := insertNode c.g n
-    ({ c with g := r.1 }, { th with pc := .drvCon p r.2 k })
-  | .drvCon p m k =>
+    ({ c with g := r.1 }, { th with pc := .drvCon p r.2 k n })
+  | .drvCon p m k _ =>
     (publish { c with g := connect c.g p m } m k, th.finishBuilt m)
   | .joinSnapL l r tag =>
     match backwalk c.g l with
     | some lc => (c, { th with pc := .joinSnapR l r tag lc })
     | none => (c, th.finish .panicked)
-  | .joinSnapR _ r tag lc =>
+  | .joinSnapR l r tag lc =>
     match backwalk c.g r with
-    | some rc => (c, { th with pc := .joinInsD tag lc rc })
+    | some rc => (c, { th with pc := .joinInsD l r tag lc rc })
     | none => (c, th.finish .panicked)
-  | .joinInsD tag lc rc =>
-    let r := insertNode c.g kit.dummy
-    ({ c with g := r.1 }, { th with pc := .joinInsG r.2 tag lc rc })
-  | .joinInsG d tag lc rc =>
-    let r := insertNode c.g (kit.cogroup tag lc rc)
-    ({ c with g := r.1 }, { th with pc := .joinCon d r.2 })
-  | .joinCon d g =>
+  | .joinInsD l r tag lc rc =>
+    let i := insertNode c.g kit.dummy
+    ({ c with g := i.1 }, { th with pc := .joinInsG l r i.2 tag lc rc })
+  | .joinInsG l r d tag lc rc =>
+    let i := insertNode c.g (kit.cogroup tag lc rc)
+    ({ c with g := i.1 }, { th with pc := .joinCon l r d i.2 tag lc rc })
+  | .joinCon _ _ d g _ _ _ =>
     (publish { c with g := connect c.g d g } g 1, th.finishBuilt g)
   | .colStart x => (c, { th with pc := .colSnap x })
-  | .colSnap x => (c, { th with pc := .colEnd x (backwalk c.g x) })
+  | .colSnap x =>
+    -- `build_plan(p, terminal)?` (runner.rs): a planner error ("missing node") leaves `run_collect` at once —
+    -- no execution, NO `record_metrics_end`
+    match backwalk c.g x with
+    | some ch => (c, { th with pc := .colEnd x ch })
+    | none => (c, th.finish (.collected x none))
   | .colEnd x ch =>
     -- the run (`exec_seq`/`exec_par` on the planned chain) happened since the snapshot: the ONLY step that
     -- extends a trace of user-code runs
-    (c, { th.finish (.collected x ch) with calls := th.calls ++ ch.toList })
+    (c, { th.finish (.collected x (some ch)) with calls := th.calls ++ [ch] })
   | .metSet => ({ c with metrics := true }, th.finish .metricsSet)
   | .metTake => ({ c with metrics := false }, th.finish (.metricsTaken c.metrics))
+  | .metGet => (c, th.finish (.metricsGot c.metrics))
 
 /-- thread `i` performs its next atomic step (a finished or non-existent thread: nothing happens) -/
 def step (kit : Kit N) (c : Cfg N) (i : Nat) : Cfg N :=
@@ -302,24 +315,25 @@ def siteOf (th : Thread N) : String :=
     | _ => "begin"
   | .srcIns _ => "insert_node"
   | .drvIns _ _ _ => "insert_node"
-  | .drvCon _ _ _ => "connect"
+  | .drvCon _ _ _ _ => "connect"
   | .joinSnapL _ _ _ => "snapshot"
   | .joinSnapR _ _ _ _ => "snapshot"
-  | .joinInsD _ _ _ => "insert_node"
-  | .joinInsG _ _ _ _ => "insert_node"
-  | .joinCon _ _ => "connect"
+  | .joinInsD _ _ _ _ _ => "insert_node"
+  | .joinInsG _ _ _ _ _ _ => "insert_node"
+  | .joinCon _ _ _ _ _ _ _ => "connect"
   | .colStart _ => "record_metrics_start"
   | .colSnap _ => "snapshot"
   | .colEnd _ _ => "record_metrics_end"
   | .metSet => "set_metrics"
   | .metTake => "take_metrics"
+  | .metGet => "get_metrics"
 
 /-! ## the abstract view used by the invariant: which ids a thread holds / has reserved -/
 
 /-- handles (already published) the thread is working with -/
 def PC.held : PC N → List Nat
   | .drvIns p _ _ => [p]
-  | .drvCon p _ _ => [p]
+  | .drvCon p _ _ _ => [p]
   | .joinSnapL l r _ => [l, r]
   | .joinSnapR l r _ _ => [l, r]
   | .colStart x => [x]
@@ -329,9 +343,9 @@ def PC.held : PC N → List Nat
 
 /-- ids the thread has inserted but whose builder has not returned yet (nobody else knows them) -/
 def PC.resv : PC N → List Nat
-  | .drvCon _ m _ => [m]
-  | .joinInsG d _ _ _ => [d]
-  | .joinCon d g => [d, g]
+  | .drvCon _ m _ _ => [m]
+  | .joinInsG _ _ d _ _ _ => [d]
+  | .joinCon _ _ d g _ _ _ => [d, g]
   | _ => []
 
 structure View where
@@ -347,5 +361,89 @@ structure ACfg (N : Type) where
   views : List View
 
 def Cfg.abs (c : Cfg N) : ACfg N := ⟨c.g, c.pool, c.threads.map Thread.view⟩
+
+/-! ## the graph part of the invariant as a decidable check (evaluated by the driver on REAL snapshots) -/
+
+def nodupB : List Nat → Bool
+  | [] => true
+  | a :: t => !(t.contains a) && nodupB t
+
+/-- ids are exactly `0..nextId-1` in order; every edge goes from an older to a younger existing node; no node has
+    two incoming edges (`Props/C08.lean: graphInvB_iff` ties it to the three graph fields of the invariant) -/
+def graphInvB (nextId : Nat) (ids : List Nat) (edges : List (Nat × Nat)) : Bool :=
+  ids == List.range nextId &&
+  edges.all (fun e => decide (e.1 < e.2) && decide (e.2 < nextId)) &&
+  nodupB (edges.map Prod.snd)
+
+/-! ## reading a source: `Node::Source{payload: Arc<dyn Any>, vec_ops: Arc<dyn VecOps>}`
+
+`VecOps::{len, split, clone_any}` get the payload as `&dyn Any`. A payload with interior mutability (a `Mutex`, a
+cursor into a file) could still change under a `&` borrow, so the model gives every read the payload STATE `σ` and lets
+it return a new one: a run that "moves" / drains its source is expressible (`Variant.drainOps`), and "never consumes
+its source" is a theorem about `ReadOnly` ops, not a consequence of the data type. The engines read a source in exactly
+two ways (runner.rs): `exec_seq` / `run_subplan_seq` → `clone_any(payload)`; `exec_par` / `run_subplan_par` →
+`len`, then `split(payload, clamp(partitions))`, falling back to `[clone_any(payload)]` when `split` declines. -/
+
+structure SrcOps (σ R : Type) where
+  len : σ → Option Nat
+  split : σ → Nat → σ × Option (List (List R))
+  cloneAny : σ → σ × Option (List R)
+
+/-- `partitions.max(1).min(total_len.max(1))` -/
+def clampParts (partitions : Nat) (total : Option Nat) : Nat :=
+  Nat.min (Nat.max partitions 1) (Nat.max (total.getD 0) 1)
+
+/-- how a run reads its head source: `none` = sequential engine, `some p` = parallel engine with `p` requested
+    partitions. Returns the payload state afterwards and the partitions read (`none` = "unsupported source"). -/
+def readSource {σ R : Type} (ops : SrcOps σ R) (s : σ) : Option Nat → σ × Option (List (List R))
+  | none =>
+    let r := ops.cloneAny s
+    (r.1, r.2.map (fun rows => [rows]))
+  | some p =>
+    let r := ops.split s (clampParts p (ops.len s))
+    match r.2 with
+    | some parts => (r.1, some parts)
+    | none =>
+      let r2 := ops.cloneAny r.1
+      (r2.1, r2.2.map (fun rows => [rows]))
+
+/-- a history of runs over ONE source (each with its own mode): the rows every run saw, and the final payload -/
+def readMany {σ R : Type} (ops : SrcOps σ R) : σ → List (Option Nat) → σ × List (Option (List R))
+  | s, [] => (s, [])
+  | s, m :: rest =>
+    let r := readSource ops s m
+    let t := readMany ops r.1 rest
+    (t.1, r.2.map List.flatten :: t.2)
+
+/-- the contract of a `VecOps`: it only READS the payload, and its partitioned view is its whole view cut in pieces -/
+structure ReadOnly {σ R : Type} (ops : SrcOps σ R) : Prop where
+  cloneKeeps : ∀ s, (ops.cloneAny s).1 = s
+  splitKeeps : ∀ s n, (ops.split s n).1 = s
+  splitIsClone : ∀ s n parts, (ops.split s n).2 = some parts → (ops.cloneAny s).2 = some parts.flatten
+
+/-- `chunks(k)` of a list, `k ≥ 1` (fuel = the length) -/
+def chunksGo {R : Type} : Nat → Nat → List R → List (List R)
+  | 0, _, _ => []
+  | fuel + 1, k, l => if l.isEmpty then [] else l.take k :: chunksGo fuel k (l.drop k)
+
+/-- `type_token.rs::VecOpsImpl<T>` on a `Vec<T>` payload: `split`: one chunk when `n ≤ 1` or `len ≤ 1`, else
+    contiguous chunks of `ceil(len/n)`; `clone_any`: the whole vector. The payload is returned untouched. -/
+def vecOps (R : Type) : SrcOps (List R) R where
+  len := fun v => some v.length
+  split := fun v n =>
+    if n ≤ 1 ∨ v.length ≤ 1 then (v, some [v])
+    else (v, some (chunksGo v.length ((v.length + n - 1) / n) v))
+  cloneAny := fun v => (v, some v)
+
+namespace Variant
+
+/-- what the check guards against: a source whose first full read DRAINS it (`mem::take` of a cache / a moved
+    payload): the state is what is left -/
+def drainOps (R : Type) : SrcOps (List R) R where
+  len := fun v => some v.length
+  split := fun v _ => ([], some [v])
+  cloneAny := fun v => ([], some v)
+
+end Variant
 
 end IB.Graph
